@@ -141,3 +141,13 @@ _p(
     components=[comp.validators(["copy"])],
     explanation="tagged_full(p) (tags present AND both instance hooks installed and bound to p itself) is proved to hold for Parameter(...), for the result of the deepcopy hook and for the result of the reduce_ex hook followed by the rebuild function, with identical tags, values, shape/dtype and requires_grad, the source left intact; since every history step is one of these (or acts in place), any history of any length preserves the tags, and the optimizer rules read only (mup_type, mup_scaling_depth, shape) (C10) so the learning-rate scale is unchanged.",
 )
+
+_p(
+    "C12",
+    level="proof",
+    technique="contract-based deductive verification: a lemma over the symbolic results of three real code paths (layer forward, module tagging, Adam lr rule)",
+    trusted_base=SMT + NN + ["assumed: Adam/AdamW first step with eps=0 is -lr*sign(grad) (validated at run time: group optim)"],
+    assumptions=[A1, A2, A7, "Adam first-step formula (A6); grad_W[j,i] = b*g_j*x_i with b>0 is C02; |x_i| = 1 and g_j != 0 as in the property; Conv1d with a single output position (input length == kernel size, no padding, stride 1)"],
+    components=[comp.validators(["optim"])],
+    explanation="The real module is constructed symbolically (fan_in, fan_out, kernel size symbolic), its real forward gives out_scale (ratio to the torch op), its weight's tag comes from the real __init__, the real lr_scale_func_adam gives the learning-rate factor for that tag / shape / depth; z3 discharges out_scale * lr_factor * fan == depth^-1/2 for Linear, LinearReadout and Conv1d, default constraint and None, with and without depth: a consistent-looking change of any one of the three parts breaks the lemma.",
+)
